@@ -210,6 +210,47 @@ def zeroed(spec, k):
     return spec
 
 
+def run_failing_replay(ctx, res, seed):
+    """a model that is undefined (raises) near both ends of one input: every evaluation requested by the first refinement in that
+    direction fails. The bookkeeping must not depend on the outcomes (C14), so replaying the history still regenerates the live sets
+    and weights of every iteration"""
+    from amisc import Component, System, Variable
+    rng = random.Random(seed)
+    eps = rng.choice([0.02, 0.05])
+
+    def model(inputs):
+        x1, x2 = float(inputs['x1']), float(inputs['x2'])
+        if x1 < eps or x1 > 1 - eps:
+            raise ValueError('model is not defined this close to the ends of the x1 range')
+        return {'y': np.sin(3 * x1) * (1 + x2 ** 2) + x2}
+    system = System(Component(model, [Variable('x1', domain=(0, 1)), Variable('x2', domain=(0, 1))], [Variable('y')],
+                              name='m', data_fidelity=(2, 2)), name='failrep')
+    system.set_logger(stdout=False)
+    comp = system['m']
+    live = []
+    for it in range(rng.randint(5, 8)):
+        np.random.seed(seed % 1000 + it)
+        n0 = len(system.train_history)
+        try:
+            system.fit(max_iter=1, max_tol=-1.0, num_refine=30)
+        except Exception as e:  # noqa: BLE001  (training with failing evaluations is C14's subject)
+            break
+        if len(system.train_history) == n0:
+            break
+        live.append(canon_replayed(comp, comp.active_set, comp.candidate_set, comp.misc_coeff_train, comp.misc_coeff_test))
+    info = {'failing_replay': seed, 'undefined_within': eps, 'iterations': len(live)}
+    for k, (tr, act, cand, mct, mcte) in enumerate(system.simulate_fit()):
+        if k >= len(live):
+            break
+        rep = canon_replayed(comp, act['m'], cand['m'], mct['m'], mcte['m'])
+        if rep != live[k]:
+            res.failures.append({'kind': 'replayed-structures-differ-from-live-snapshot (model with failing evaluations)',
+                                 'input': {**info, 'iteration': k}, 'observed': rep, 'expected': live[k]})
+            break
+    res.hit('replay-with-failing-evaluations')
+    res.case(('failing_replay', seed), len(live) >= 4, info)
+
+
 def run(ctx: core.Ctx, only=None) -> core.Result:
     res = core.Result()
     res.rule = ('random training histories over 2-3-component feed-forward systems (with/without model fidelities, with '
@@ -218,6 +259,10 @@ def run(ctx: core.Ctx, only=None) -> core.Result:
                 'initial coupling-domain guesses widened by update_bounds); 40 % of the histories are recorded by fit() itself, one '
                 'step per call, some calls ended by the time budget. non-trivial = >= 6 iterations.')
     lines, post = [], []
+    if only is not None:
+        for o_ in [o for o in only if 'failing_replay' in o.get('input', o)]:
+            run_failing_replay(ctx, res, o_.get('input', o_)['failing_replay'])
+        only = [o for o in only if 'failing_replay' not in o.get('input', o)]
     specs = [o.get('input', o).get('spec', o.get('input', o)) for o in only] if only is not None else \
         [c.get('spec', c) for c in core.corpus_cases('C18')] + [zeroed(sc.gen_system_spec(ctx.rng), k) for k in range(ctx.scale(10, 60))]
     if only is None:
@@ -231,6 +276,11 @@ def run(ctx: core.Ctx, only=None) -> core.Result:
             sub_lines, sub_post = [], []
             run_case(ctx, res, spec, sub_lines, sub_post)
             lines.extend(sub_lines); post.extend(sub_post)
+    if only is None:
+        for _ in range(ctx.scale(2, 6)):
+            sd = ctx.rng.randrange(10 ** 6)
+            with core.guarded(res, 'scenario-raised', {'failing_replay': sd}):
+                run_failing_replay(ctx, res, sd)
     out = core.try_driver(lines, res, 'Amisc.simStep')
     for pst, o in zip(post, out or []):
         if pst is None:
